@@ -96,6 +96,12 @@ def mon_mapping_asset(case, ev, prefix='asset'):
                 if any(x.get(k) != sets[0][k] for x in sets[1:]):
                     bad = {'variable': k, 'steps_per_node': {n: dd.get(k) for n, dd in zip(per_node, sets)}}; break
         case.check(prefix + '.multi_node_rows_consistent', okm, nonvacuous=len(d) > 0, **who, bad=bad)
+    if ev.args.get('cls') == 'Storage' and obj is not None and len(obj.nodes) == 2 and 'var_name' in m.columns:
+        # storage taking the commodity in its first node and giving it out in the second: charge rows name the first, discharge rows the second node
+        d = m[m['type'] == 'd']
+        n_in = set(map(str, d.loc[d['var_name'] == 'disp_in', 'node'])); n_out = set(map(str, d.loc[d['var_name'] == 'disp_out', 'node']))
+        case.check(prefix + '.two_node_storage_rows', n_in <= {obj.nodes[0].name} and n_out <= {obj.nodes[1].name}, nonvacuous=len(n_in | n_out) > 0 and obj.nodes[0].name != obj.nodes[1].name,
+                   **who, charge_nodes=sorted(n_in), discharge_nodes=sorted(n_out), declared=[obj.nodes[0].name, obj.nodes[1].name])
     if 'disp_factor' in m.columns:
         df = np.asarray(m['disp_factor'], dtype=float)
         d_rows = np.asarray(m['type'] == 'd')
